@@ -99,6 +99,21 @@ impl<'value, T: 'value> Stream<T> {
 
 impl<'value, T: 'value + Clone + fmt::Display> Stream<T> {
     pub(crate) fn add_value(&mut self, value: T, generation: Generation) -> ExecutionResult<()> {
+        use crate::execution_step::ExecutionError;
+        use crate::UncatchableError;
+
+        // Generations in data are numbered densely and a stream holds less than STREAM_MAX_SIZE values,
+        // so a bigger generation could come only from corrupted data. It must not reach the matrices,
+        // because they allocate memory proportionally to a generation index.
+        let is_generation_valid = match generation {
+            Generation::Previous(previous_gen) => previous_gen < STREAM_MAX_SIZE,
+            Generation::Current(current_gen) => current_gen < STREAM_MAX_SIZE,
+            Generation::New => true,
+        };
+        if !is_generation_valid {
+            return Err(ExecutionError::Uncatchable(UncatchableError::StreamSizeLimitExceeded));
+        }
+
         match generation {
             Generation::Previous(previous_gen) => self.previous_values.add_value_to_generation(value, previous_gen),
             Generation::Current(current_gen) => self.current_values.add_value_to_generation(value, current_gen),
